@@ -222,6 +222,19 @@ Theorem C16_latitude_integral_conserved_R n m (tx sx x : nat -> R) :
   = @sumn R ROps m (fun j => (ss (S j) - ss j) * x j).
 Proof. exact (latitude_integral_conserved_R n m tx sx x). Qed.
 
+(** Longitude, pointwise and over the reals: when the widths of the two cells
+    add up to at most period/2 (and the cells lie within 3/2 periods of each
+    other, as after [% period]) the coded _periodic_overlap is the true periodic
+    overlap = sum of the overlaps with the three shifted copies.  What is still
+    missing for [lon_partition]: summing this over the cyclically ordered cells
+    produced by _periodic_lower/upper_bounds (rotation + telescoping). *)
+Theorem C16_periodic_overlap_pointwise_R (P x0 x1 y0 y1 : R) :
+  (0 < P)%R -> (x0 <= x1)%R -> (y0 <= y1)%R -> ((x1 - x0) + (y1 - y0) <= P / 2)%R ->
+  (- (3 * P / 2) < y0 - x0)%R -> (y1 - x0 < 3 * P / 2)%R ->
+  @per_overlap R ROps P x0 x1 y0 y1
+  = (@ov R ROps x0 x1 (y0 - P) (y1 - P) + @ov R ROps x0 x1 y0 y1 + @ov R ROps x0 x1 (y0 + P) (y1 + P))%R.
+Proof. exact (per_overlap_shifted_R P x0 x1 y0 y1). Qed.
+
 (** Beyond the domain: three source and three target longitudes (every cell is
     period/3 wide, i.e. narrower than the period/2 named in the code comment of
     _periodic_overlap, but two widths add up to more than period/2).  The
@@ -314,5 +327,6 @@ Print Assumptions C16_longitude_rows_partial.
 Print Assumptions C16_horizontal_integral_conserved_partial.
 Print Assumptions C16_nan_semantics_strict.
 Print Assumptions C16_nan_semantics_skipna.
+Print Assumptions C16_periodic_overlap_pointwise_R.
 Print Assumptions C16_longitude_coarse_refuted.
 Print Assumptions C16_hyps_satisfiable.
